@@ -1,2 +1,3 @@
 import FlowCalDriver.Json
 import FlowCalDriver.Text
+import FlowCalDriver.File
